@@ -8,7 +8,9 @@ from .common import (exec_case, rng_for, any_outcome_matches, mismatch_kind, fmt
 RULE = ("well-typed programs from the typed grammar of the core fragment (depth <= 6) with boundary-biased "
         "literals and variables of a generated context, rendered minimally (a fifth also fully) "
         "parenthesised, executed and compared with the Python reference evaluator (value structurally, "
-        "error by class; map-ranged macros under every key order); non-trivial = program with >= 2 "
+        "error by class; map-ranged macros under every key order); every multi-operand construct (map / list literals, "
+        "calls, binary operators, index, conditional, nested sums, macro bodies) with two operands failing in different "
+        "error classes at every pair of positions (the class returned tells which ran first); non-trivial = program with >= 2 "
         "operators/calls; distinct = distinct (source, context)")
 ASSUMPTIONS = ["reference evaluator celmodel/refeval.py implements the semantics C03 names; programs that "
                "leave its fragment (Unsupported) are skipped and counted, never judged"]
@@ -16,7 +18,7 @@ ASSUMPTIONS = ["reference evaluator celmodel/refeval.py implements the semantics
 
 def units(tier, seed):
     n = 48 if tier == 'quick' else 320
-    return [('typed', i) for i in range(n)] + [('concat', i) for i in range(2 if tier == 'quick' else 16)] + [('crossnum',)]
+    return [('typed', i) for i in range(n)] + [('concat', i) for i in range(2 if tier == 'quick' else 16)] + [('crossnum',), ('errorder',)]
 
 
 def concat_programs(rng):
@@ -135,6 +137,62 @@ def run_unit(unit, drv, res, seed, tier):
             res.nt(c["src"] + "|" + repr(c.get("vars")))
             res.count("family:crossnum")
         res.exhaustive_done['cross-kind-numeric-relations'] = True
+        return
+    if unit[0] == 'errorder':
+        # "operands evaluated left to right with the first error aborting": every construct with several operand
+        # slots, two of them failing with errors of *different* classes (division by zero, overflow, missing key,
+        # undeclared name), in every pair of positions - the class that comes back tells which operand ran first
+        import itertools
+        from celmodel.values import I, S
+        li = lambda k: ('lit', I(k))
+        fails = [('bin', '/', li(1), li(0)), ('bin', '+', li(9223372036854775807), li(1)),
+                 ('sel', ('map', [(('lit', S('k')), li(1))]), 'zz'), ('id', 'nosuch'), ('bin', '%', li(5), li(0)),
+                 ('bin', '*', li(-9223372036854775807), li(3))]
+        ok_int = [li(1), li(2), li(3), li(4), li(5), li(6)]
+
+        def builders():
+            B = []
+            for n in (2, 3):
+                B.append(('map-literal', 2 * n, lambda xs: ('map', [(xs[2 * i], xs[2 * i + 1]) for i in range(len(xs) // 2)])))
+                B.append(('list-literal', n, lambda xs: ('list', list(xs))))
+                B.append(('call-max', n, lambda xs: ('call', 'max', list(xs))))
+                B.append(('list-of-lists', n, lambda xs: ('list', [('list', [x]) for x in xs])))
+            for op in ('+', '-', '*', '/', '%', '==', '<', 'in'):
+                if op == 'in':
+                    B.append(('bin:in', 2, lambda xs: ('bin', 'in', xs[0], ('list', [xs[1]]))))
+                else:
+                    B.append(('bin:' + op, 2, (lambda op: lambda xs: ('bin', op, xs[0], xs[1]))(op)))
+            B.append(('index', 2, lambda xs: ('idx', ('list', [xs[0]]), xs[1])))
+            B.append(('map-index', 2, lambda xs: ('idx', ('map', [(li(1), xs[0])]), xs[1])))
+            B.append(('cond', 2, lambda xs: ('cond', ('bin', '==', xs[0], li(1)), xs[1], li(0))))
+            B.append(('nested-sum', 3, lambda xs: ('bin', '+', ('bin', '+', xs[0], xs[1]), xs[2])))
+            B.append(('nested-right', 3, lambda xs: ('bin', '+', xs[0], ('bin', '*', xs[1], xs[2]))))
+            B.append(('map-in-list', 4, lambda xs: ('list', [('map', [(xs[0], xs[1])]), ('map', [(xs[2], xs[3])])])))
+            B.append(('macro-body', 2, lambda xs: ('macro', 'map', ('list', [li(1)]), 'q', [('list', [xs[0], xs[1]])])))
+            B.append(('size-of-map', 4, lambda xs: ('call', 'size', [('map', [(xs[0], xs[1]), (xs[2], xs[3])])])))
+            return B
+        for fam, nslots, build in builders():
+            for i, j in itertools.combinations(range(nslots), 2):
+                for fa, fb in itertools.permutations(range(len(fails)), 2):
+                    if (fa + fb + i + j) % 3 and nslots > 3:
+                        continue
+                    xs = list(ok_int[:nslots])
+                    xs[i], xs[j] = fails[fa], fails[fb]
+                    e = build(xs)
+                    try:
+                        outs, complete = all_outcomes(e, {})
+                    except Unsupported:
+                        res.count("skipped:unsupported")
+                        continue
+                    cases.append(exec_case(len(cases), render_min(e)))
+                    meta.append((e, outs, complete, fam))
+        out = drv.run(cases, "errorder")
+        for c, r, (e, outs, complete, fam) in zip(cases, out, meta):
+            res.evaluations += 1
+            judge(res, c, r, outs, complete, e)
+            res.nt(c["src"])
+            res.count("family:errorder:" + fam)
+        res.exhaustive_done['two-failing-operands-x-constructs'] = True
         return
     if unit[0] == 'concat':
         for e, ctx in concat_programs(rng):
